@@ -261,7 +261,7 @@ CHECKS = {
          "key_for_path, keys becoming used, reopen); every key handed out and every leaf row is re-derived from the seed by the Lean BIP32 model "
          "and its address recomputed by the Lean address model; keys.path_expand is compared on partial paths with all hardened spellings; "
          "wallets are re-created from seed, mnemonic, xprv and (watch-only) account xpub and must reproduce the addresses. "
-         "Found and fixed: F43, F44."),
+         "Histories now also ask for the account public key in the middle (public_master), add an account on a second network, give a watch-only wallet its private master key and reopen it, and run the index machine on cosigner wallets of multisigs. Found and fixed: F43, F44, F54, F55, F56."),
    design_ref='DESIGN.md §5 C09',
    note=COMMON_NOTE + "Histories run on single-signature HD wallets; multisig key paths are covered by the table and path theorems and by the cosigner-wallet comparison of C10."),
  'C10': dict(
@@ -276,7 +276,7 @@ CHECKS = {
          "ceremonies over all signer sequences (incl. a cosigner signing twice) with hand-off as object, dict and raw hex: after every step "
          "the number of signatures and verify() must equal the model, the redeem script of the spend must be the sorted-key script, and "
          "send(broadcast=True) must push iff at least m distinct cosigners signed. Found and fixed: F24 (dict hand-off), F25 (raw hand-off "
-         "broadcast a 2-of-2 with one signature), F50 (dict hand-off dropped sequence numbers); listed: F26 (raw hand-off loses partial signatures; never an under-signed broadcast)."),
+         "broadcast a 2-of-2 with one signature), F50 (dict hand-off dropped sequence numbers), F57 (multi-input dict hand-off signed in the wrong key order); listed: F26 (raw hand-off loses partial signatures; never an under-signed broadcast)."),
    design_ref='DESIGN.md §5 C10',
    note=COMMON_NOTE + "ECDSA validity of the individual signatures is C02/C13; here the signer set, its order-independence and the threshold are decided. n up to 15 is covered by the theorems (any n), the run stops at n = 5."),
 }
